@@ -2,6 +2,7 @@
 # usage: run_seeded.sh <patch.diff> <property> [more properties...]
 # Applies a property-breaking change to /repo, runs the quick check(s), and undoes it.
 # Exit 0 when at least one of the checks reports a VIOLATION (the change is caught).
+unset GOFLAGS GOWORK; export GOPROXY=off GOSUMDB=off GOTOOLCHAIN=local
 patch="$1"; shift
 cd /repo || exit 2
 if [ -n "$(git status --porcelain --untracked-files=no)" ]; then echo "run_seeded: /repo has uncommitted changes, refusing"; exit 2; fi
